@@ -743,7 +743,7 @@ func runProperty(prop *PropSpec, tier string, seed int, verbose int, only string
 						continue
 					}
 					rank := 50
-					for r, pref := range []string{"SetContent", "RegisterRuneFallback", "Fill", "SetStyle", "ShowCursor", "Sync", "Show"} {
+					for r, pref := range []string{"window-resize+Show", "SetContent", "RegisterRuneFallback", "Fill", "SetStyle", "ShowCursor", "Sync", "Show"} {
 						if n2 == pref {
 							rank = r
 						}
